@@ -125,6 +125,57 @@ theorem C07_from_nfa_min_pyShape (n : AV.NFA σ α) (hv : n.validate = .ok ()) (
 theorem C07_from_nfa_min_full_holds : C07_from_nfa_min_full :=
   fun _ _ _ _ n hv ps pick => C07_from_nfa_min n hv ps pick
 
+/-- **Subset construction with the library's DEFAULT options `retain_names=False,
+minify=True`** — the literal call `DFA.from_nfa(n)`.  Here `_expand_dfa` renames the subset
+states by BFS discovery index *before* it calls `_minify`, so `_minify` runs on a table with
+int names (and picks its trap id among the negative ints, which the indices never are).
+For every valid NFA of Python shape and every pop order `pick` of the Hopcroft loop the
+result is a valid DFA with exactly the language of `n`.  (The final `enumerate` renaming of
+the blocks is an injective renaming of a valid DFA: `C07_from_nfa_default_renamed`.) -/
+theorem C07_from_nfa_min_renumbered (n : AV.NFA σ α) (hv : n.validate = .ok ()) (ps : n.PyShape)
+    (pick : List Nat → Nat) :
+    (n.toDFAMinRenum pick).validate = .ok () ∧ ∀ w, (n.toDFAMinRenum pick).accepts w = n.accepts w :=
+  let h := toDFAMinRenum_core ((NFA.validate_eq_ok n).mp hv) ps pick
+  ⟨h.1, h.2.2⟩
+
+/-- The same statement with `_minify`'s arguments spelled out, as in the reviewer's reading:
+`P` is the renumbered subset DFA. -/
+theorem C07_from_nfa_min_renumbered' (n : AV.NFA σ α) (hv : n.validate = .ok ()) (ps : n.PyShape)
+    (pick : List Nat → Nat) :
+    let P := n.toDFA.renumber
+    (DFA.minifyCore P.states P.syms P.trans P.init P.finals pick).validate = .ok () ∧
+    ∀ w, (DFA.minifyCore P.states P.syms P.trans P.init P.finals pick).accepts w = n.accepts w :=
+  C07_from_nfa_min_renumbered n hv ps pick
+
+/-- The default-options result is again a value Python sets/dicts can hold. -/
+theorem C07_from_nfa_min_renumbered_pyShape (n : AV.NFA σ α) (hv : n.validate = .ok ())
+    (ps : n.PyShape) (pick : List Nat → Nat) : (n.toDFAMinRenum pick).PyShape :=
+  (toDFAMinRenum_core ((NFA.validate_eq_ok n).mp hv) ps pick).2.1
+
+/-- The default-options result is trim and reduced (hence minimal, as in C05): every state
+is reached from the initial state by a word, and any two distinct states are told apart by
+a word. -/
+theorem C07_from_nfa_min_renumbered_minimal (n : AV.NFA σ α) (hv : n.validate = .ok ())
+    (ps : n.PyShape) (pick : List Nat → Nat) :
+    (∀ q ∈ (n.toDFAMinRenum pick).states,
+      ∃ w, (n.toDFAMinRenum pick).run (some (n.toDFAMinRenum pick).init) w = some q) ∧
+    (∀ q ∈ (n.toDFAMinRenum pick).states, ∀ q' ∈ (n.toDFAMinRenum pick).states, q ≠ q' →
+      ∃ w, (n.toDFAMinRenum pick).isFinal ((n.toDFAMinRenum pick).run (some q) w) ≠
+        (n.toDFAMinRenum pick).isFinal ((n.toDFAMinRenum pick).run (some q') w)) :=
+  let S := toDFA_renumber_minSource ((NFA.validate_eq_ok n).mp hv) ps
+  ⟨S.reachable pick, S.distinguishable pick⟩
+
+/-- **`DFA.from_nfa(n)` with int names.**  `_minify(retain_names=False)` finally names each
+block by a number; renaming the valid quotient by the position of the block (any injective
+numbering behaves the same, see `C04_renumber`) keeps validity and the language. -/
+theorem C07_from_nfa_default_renamed (n : AV.NFA σ α) (hv : n.validate = .ok ()) (ps : n.PyShape)
+    (pick : List Nat → Nat) :
+    (n.toDFAMinRenum pick).renumber.validate = .ok () ∧
+    ∀ w, (n.toDFAMinRenum pick).renumber.accepts w = n.accepts w := by
+  obtain ⟨h1, h2⟩ := C07_from_nfa_min_renumbered n hv ps pick
+  have wfM := (DFA.validate_eq_ok _).mp h1
+  exact ⟨(DFA.validate_eq_ok _).mpr (renumber_wf wfM), fun w => by rw [renumber_accepts wfM, h2]⟩
+
 /-! ## B. `NFA.from_dfa` — a DFA viewed as an NFA -/
 
 /-- **`NFA.from_dfa`: the result is a valid NFA** (in particular the initial state has a
@@ -257,6 +308,11 @@ example : (exK.toDFAMin).validate = .ok () ∧ ∀ w, (exK.toDFAMin).accepts w =
   C07_from_nfa_min exK (by rfl) exK_pyShape _
 example : (exN.toDFAMin).validate = .ok () ∧ ∀ w, (exN.toDFAMin).accepts w = exN.accepts w :=
   C07_from_nfa_min exN (by rfl) exN_pyShape _
+example : (exK.toDFAMinRenum).states.length = 4 := by decide
+example : (exN.toDFAMinRenum).states = [DFA.MinName.blk [1], DFA.MinName.blk [0]] := by decide
+example : (exN.toDFAMinRenum).validate = .ok () ∧
+    ∀ w, (exN.toDFAMinRenum).accepts w = exN.accepts w :=
+  C07_from_nfa_min_renumbered exN (by rfl) exN_pyShape _
 
 example : ((NFA.ofDFA exD).accepts [0, 1], (NFA.ofDFA exD).accepts [1, 1]) = (true, false) := by decide
 
